@@ -166,6 +166,8 @@ def run(ctx):
         if node is not None:
             ctx.function_under_contract(MOD + ":" + q, mod.segment(node))
     run_deductive(ctx, mod)
+    from props import C04 as _c04
+    _c04.verify_block_format(ctx)        # the formatter of one block: every stored component written exactly once, as stored
     rng = random.Random(ctx.seed)
     rounds = 2500 if ctx.tier == "quick" else 40000
     t = Tally(ctx, "B-15 totality, strict <=> warning, normal form on mutated texts and edit histories",
